@@ -167,3 +167,13 @@ package influxql
 //@   props C06
 //@   safety C06
 //@   ensures result == scat(scat("'", libcall("(*strings.Replacer).Replace", qsReplacer, s)), "'")
+
+// IdentNeedsQuotes: a keyword in any letter case, an empty first-character class or
+// a non-identifier character later on all force quotes (so the bare scan of an
+// unquoted name can never produce a keyword token or stop early).
+//@ func IdentNeedsQuotes
+//@   props C06 C04
+//@   safety C04
+//@   ensures [C06] @keyword call("Lookup", ident) != IDENT ==> result
+//@   loop 1 step [C06] @firstchar (i == 0 && !spec_isIdentFirst(r)) ==> false
+//@   loop 1 step [C06] @laterchar (i > 0 && !spec_isIdentChar(r)) ==> false
